@@ -62,7 +62,7 @@ class State:
 TOTAL_CALLS = {
     "len", "isinstance", "type", "repr", "id", "bool", "callable", "hasattr", "tuple", "list", "dict",
     "bytes.decode:latin-1", "cast", "getattr3", "object", "enumerate", "iter", "super", "min", "max", "abs",
-    "hex", "oct", "bin", "ord", "slice", "sorted", "reversed", "zip", "range", "memoryview", "bytearray", "divmod", "round", "sum", "any", "all",
+    "hex", "oct", "bin", "slice", "sorted", "reversed", "zip", "range", "memoryview", "bytearray", "divmod", "round", "sum", "any", "all",
 }
 TOTAL_METHODS = {
     "append", "items", "values", "keys", "join", "rstrip", "lstrip", "strip", "startswith", "endswith", "is_set",
@@ -823,6 +823,17 @@ class Effects:
             out.append(self.esc("TypeError", True, fi, c, "hash"))
             return out
         if isinstance(fn, ast.Name) and fn.id == "complex":
+            return out
+        if isinstance(fn, ast.Name) and fn.id in ("ord", "chr") and len(c.args) == 1:
+            # ord(x) is total only on a string/bytes of length exactly one (a literal, or an element `s[i]` of a str); a read of
+            # "up to one byte" may be empty at end of input.  chr(i) needs an int in range.
+            a = c.args[0]
+            one = isinstance(a, ast.Constant) and isinstance(a.value, (str, bytes)) and len(a.value) == 1
+            if fn.id == "ord" and not one and not (f"len({unparse(a)}) == 1" in st.facts):
+                self.primitive_sites.append({"site": f"{fi.module.rel}:{c.lineno} {fi.short}", "construct": norm(c), "kind": "ord()", "discharged": None})
+                out.append(self.esc("TypeError", True, fi, c, "ord()"))
+            if fn.id == "chr" and not (isinstance(a, ast.Constant) and isinstance(a.value, int)):
+                out.append(self.esc("ValueError", True, fi, c, "chr()"))
             return out
         if isinstance(fn, ast.Name) and fn.id in ("set", "frozenset") and self.repo.local_alias(fn.id, fi) is None:
             # building a set hashes its members
